@@ -54,6 +54,10 @@ type Contract struct {
 	OnUnlock []ghostUpd           // ghost updates performed when this function releases a monitor (auxiliary code)
 	AtUnlock []*Clause            // guarantee checked at every release of a monitor by this function (atlock(e) = e at acquisition)
 	Contrib  map[string]int       // counter ghost → total amount one execution of this function adds to it
+	// callee → precondition labels that this unit does not establish but assumes (each use is listed in the evidence as
+	// an ASSUMED precondition with the stated reason); for thin wrappers whose callees need facts produced elsewhere
+	TrustPre    map[string]map[string]bool
+	TrustPreWhy map[string]string
 }
 
 // ghostUpd: NAME += EXPR at the release of monitor Mutex.
@@ -135,7 +139,7 @@ func (w *World) parseContracts(pkgs []*packages.Package) error {
 	return nil
 }
 
-var keywords = map[string]bool{"func": true, "before": true, "onunlock": true, "atunlock": true, "contributes": true, "closure": true, "assume": true, "requires": true, "ensures": true, "modifies": true, "loop": true,
+var keywords = map[string]bool{"trustpre": true, "func": true, "before": true, "onunlock": true, "atunlock": true, "contributes": true, "closure": true, "assume": true, "requires": true, "ensures": true, "modifies": true, "loop": true,
 	"safety": true, "ghost": true, "monitor": true, "inv": true, "spawn": true, "pure": true, "note": true, "cover": true, "lemma": true, "iface": true, "noinline": true, "trusted": true, "inline": true, "stable": true}
 
 func firstWord(s string) string {
@@ -275,6 +279,24 @@ func (w *World) parseContractLines(sp *ssa.Package, lines, poss []string) error 
 			}
 			cur.Contrib[f[0]] = n
 			cur.Verify = true
+		case "trustpre":
+			// trustpre CALLEE label1 label2 ... : reason
+			parts := strings.SplitN(rest, ":", 2)
+			f := strings.Fields(parts[0])
+			if len(f) < 2 || len(parts) != 2 {
+				return fmt.Errorf("%s: trustpre CALLEE LABEL... : REASON", pos)
+			}
+			if cur.TrustPre == nil {
+				cur.TrustPre = map[string]map[string]bool{}
+				cur.TrustPreWhy = map[string]string{}
+			}
+			if cur.TrustPre[f[0]] == nil {
+				cur.TrustPre[f[0]] = map[string]bool{}
+			}
+			for _, l := range f[1:] {
+				cur.TrustPre[f[0]][l] = true
+			}
+			cur.TrustPreWhy[f[0]] = strings.TrimSpace(parts[1])
 		case "before":
 			// before CALLEE assert[label] EXPR: checked in the caller's state right before every call of CALLEE
 			f := strings.SplitN(rest, " ", 2)
